@@ -42,6 +42,11 @@ pub(crate) struct Parser {
     ///
     /// A reference to one of these can be used before the input defining it is parsed.
     nested_names: HashSet<Name>,
+    /// Set while the input schemas are parsed: a field default that cannot be checked yet,
+    /// because the type of the field refers to a schema defined further on, is kept in
+    /// `deferred_defaults` and checked when all input schemas are known.
+    defer_defaults: bool,
+    deferred_defaults: Vec<(Schema, String, String, Option<Value>)>,
 }
 
 impl Parser {
@@ -60,6 +65,32 @@ impl Parser {
             input_order,
             parsed_schemas,
             nested_names,
+            defer_defaults: false,
+            deferred_defaults: Vec::new(),
+        }
+    }
+
+    /// Called when the default of a record field does not fit the type of the field as far as it
+    /// is known at this point. While the input schemas are being parsed the check is repeated at
+    /// the end, otherwise `error` is returned.
+    pub(crate) fn defer_default_check(
+        &mut self,
+        error: Error,
+        field_schema: &Schema,
+        field_name: &str,
+        record_name: String,
+        default: &Option<Value>,
+    ) -> AvroResult<()> {
+        if self.defer_defaults {
+            self.deferred_defaults.push((
+                field_schema.clone(),
+                field_name.to_string(),
+                record_name,
+                default.clone(),
+            ));
+            Ok(())
+        } else {
+            Err(error)
         }
     }
 
@@ -149,6 +180,25 @@ impl Parser {
 
     /// Convert the input schemas to `parsed_schemas`.
     pub(super) fn parse_input_schemas(&mut self) -> Result<(), Error> {
+        self.defer_defaults = true;
+        let parsed = self.parse_pending_input_schemas();
+        self.defer_defaults = false;
+        parsed?;
+        // Every definition is known now: the outcome does not depend on the order of parsing
+        for (schema, field_name, record_name, default) in std::mem::take(&mut self.deferred_defaults)
+        {
+            RecordField::resolve_default_value(
+                &schema,
+                &field_name,
+                &record_name,
+                &self.parsed_schemas,
+                &default,
+            )?;
+        }
+        Ok(())
+    }
+
+    fn parse_pending_input_schemas(&mut self) -> Result<(), Error> {
         while !self.input_schemas.is_empty() {
             let next_name = self
                 .input_schemas
